@@ -180,7 +180,12 @@ func (s *Server) goLive(
 	var livemsg []byte
 	switch outputType {
 	case JSON:
-		livemsg = redcon.AppendBulkString(nil, `{"ok":true,"live":true}`)
+		if connType == Native && !websocket {
+			// the native "$len " frame carries the document itself
+			livemsg = []byte(`{"ok":true,"live":true}`)
+		} else {
+			livemsg = redcon.AppendBulkString(nil, `{"ok":true,"live":true}`)
+		}
 	case RESP:
 		livemsg = redcon.AppendOK(nil)
 	}
